@@ -254,7 +254,8 @@ class Impl(object):
     def __init__(self, ctx=16):
         new_context(ctx)
         self.heap = []; self.reg = Registry(); self.rows = {}; self.expected = []; self.tainted = set()
-        self.notes = {'broadcast': 0, 'stale_read': 0, 'exn': 0, 'steps': 0, 'cells': 0}
+        self.notes = {'broadcast': 0, 'stale_read': 0, 'read_after_broadcast': 0, 'exn': 0, 'steps': 0, 'cells': 0}
+        self.dispatched_bcast = set()     # heap indices of objects that dispatched a broadcasting binary ufunc
 
     def row(self, code, args, r):
         key = (code, tuple(self.reg.id(a) for a in args))
@@ -318,6 +319,8 @@ class Impl(object):
     def step(self, op):
         core, reporting, lib, la, ua = gtc_mods()
         k = op['op']
+        if k in ('un', 'unb', 'zip', 'result', 'copy') and op['i'] in self.dispatched_bcast:
+            self.notes['read_after_broadcast'] += 1
         if k == 'new':
             elems = [make_elem(s) for s in op['elems']]
             lbl = op.get('label')
@@ -327,8 +330,11 @@ class Impl(object):
             code = op['f']; x = self.operand(op['x']); y = self.operand(op['y'])
             A = self.op_cells(op['x']); B = self.op_cells(op['y'])
             sa = np.shape(x) if op['x'][0] == 'A' else (); sb = np.shape(y) if op['y'][0] == 'A' else ()
-            self.record_pairs(code, A, B, sa, sb, extra_diag=(code == F_ATAN2))
-            if tuple(sa) != tuple(sb) and op['x'][0] == 'A' and op['y'][0] == 'A': self.notes['broadcast'] += 1
+            self.record_pairs(code, A, B, sa, sb)
+            if tuple(sa) != tuple(sb) and op['x'][0] == 'A' and op['y'][0] == 'A':
+                self.notes['broadcast'] += 1
+                ku = [o[1] for o in (op['x'], op['y']) if kind_of(self.heap[o[1]]) == 'KU']
+                if ku: self.dispatched_bcast.add(ku[0])
             name = 'arctan2' if code == F_ATAN2 else BGEN.get(code) or BCMP.get(code)
             form = op.get('form', 'ufunc')
             if form == 'list':       # pass a plain-ndarray operand as a nested list
@@ -423,7 +429,7 @@ def coq_op(op, impl, step=None):
         lbl = op.get('label') if op['kind'] == 'KU' else None
         return '(ONew %s %s %s %s)' % (op['kind'], cnat_list(op['shape']), czl(elems), cz(reg.id(lbl) if lbl is not None else 0))
     if k == 'bin':
-        bk = 'BAtan2' if op['f'] == F_ATAN2 else 'BCmp' if op['f'] in BCMP else 'BGen'
+        bk = 'BCmp' if op['f'] in BCMP else 'BGen'      # np.arctan2 is an ordinary two-argument wrapper since the fix
         return '(OBin %s %s %s %s)' % (bk, cz(op['f']), coq_operand(op['x'], reg, impl.scalars), coq_operand(op['y'], reg, impl.scalars))
     if k == 'un': return '(OUn %s %d)' % (cz(op['f']), op['i'])
     if k == 'unb': return '(OUnB %s %d)' % (cz(op['f']), op['i'])
@@ -552,7 +558,7 @@ def extend_program(rng, prog, impl_factory, nops):
         if not kus: break
         def pick_ku():
             # prefer the first objects (the shared operands) and objects with a remembered broadcast shape
-            stale = [i for i in kus if bstate_of(heap[i]) != 'BNone']
+            stale = [i for i in kus if bstate_of(heap[i]) != 'BNone' or i in impl.dispatched_bcast]
             if stale and rng.random() < 0.5: return rng.choice(stale)
             return rng.choice(kus[:4]) if rng.random() < 0.7 else rng.choice(kus)
         def pick_any():
